@@ -252,7 +252,7 @@ pub fn run(prop: &str, args: &Args) -> LegResult {
             if !o.status.success() {
                 // aborted by a panic inside the simulator dylib? then the marker names the run
                 let cur = std::fs::read_to_string(format!("{}.cur", out.display())).unwrap_or_default();
-                let f: Vec<&str> = cur.split(' ').collect();
+                let f: Vec<&str> = cur.split_whitespace().collect();
                 match (panic_site(&se), f.len() == 3) {
                     (Some((loc, msg)), true) if site_in_sut(&loc) => {
                         let (r, rseed, scn) = (f[0].parse::<u64>().unwrap_or(0), f[1].parse::<u64>().unwrap_or(0), f[2].to_string());
